@@ -24,6 +24,13 @@ RoundOk(ev) ==
   LET want == IF ev.kind = "enc" THEN Enc(B(ev.s), B(ev.k)) ELSE Dec(B(ev.s), B(ev.k))
   IN  B(ev.soft) = want /\ B(ev.hard) = want
 
+\* an input of sizeHigh * 2^32 + bit31 * 2^31 + sizeLow31 zero bytes (at least 2^31): its fingerprint is neither the fingerprint of the
+\* empty input (which the specification recomputes) nor the one of the input truncated to 32 bits, and both AES paths agree
+HugeHashOk(ev) == /\ (ev.sizeHigh > 0 \/ ev.bit31)
+                  /\ LimbsToBytes(ev.empty) = Hash1R(<<>>)
+                  /\ ev.hard # ev.empty
+                  /\ ((ev.sizeHigh > 0) => ev.hard # ev.trunc)
+                  /\ (ev.hasSoft => ev.soft = ev.hard)
 \* the canary bytes behind the output buffers are intact: a routine asked for n bytes writes n bytes (n = 0: nothing)
 GuardOk(ev) == ("guard" \in DOMAIN ev) => ev.guard
 FillOk(ev, four) ==
@@ -61,6 +68,7 @@ EventOk(ev) ==
     [] ev.e = "fill4" -> FillOk(ev, TRUE) /\ GuardOk(ev)
     [] ev.e = "hash1" -> HashOk(ev)
     [] ev.e = "hashfill" -> HashFillOk(ev) /\ GuardOk(ev)
+    [] ev.e = "hugehash" -> HugeHashOk(ev)
     [] ev.e = "lut" -> LutOk(ev)
     [] ev.e = "chain" -> ChainOk(ev)
     [] ev.e = "same" -> SameOk(ev)
